@@ -1,4 +1,6 @@
 """Property -> rules."""
+import re
+
 from . import facts
 from .rules import panic
 
@@ -124,3 +126,33 @@ def c13(ctx):
     ctx.assume(EXT_ASSUME)
     return ctx.finish(explanation="panic-edge inventory of the evaluator and the folding constructors; operator identity per match arm; "
                       "call-graph identity of folding and lazy evaluation; truthiness and short-circuit shape")
+
+
+@prop("C18")
+def c18(ctx):
+    from .rules import timestamp
+    timestamp.run(ctx)
+    n = panic_module(ctx, "PANIC(timestamp)", ("src/internal/timestamp.rs",),
+                     lambda f: (f.file == "src/internal/timestamp.rs" and f.kind != "Closure") or
+                     re.search(r"SummaryInfo::(set_creation_time|set_creation_time_to_now|creation_time)$", f.path) is not None,
+                     "SummaryInfo::{set_creation_time, set_creation_time_to_now, creation_time} and Timestamp::*")
+    ctx.floor("PANIC(timestamp)", "potential panic sites in timestamp.rs", n, 6)
+    return ctx.finish(explanation="panic-edge inventory of timestamp.rs (saturate instead of panic) plus the constants and operation shape of both "
+                      "conversions read from MIR; drift, idempotence and monotonicity are not decided")
+
+
+@prop("C12")
+def c12(ctx):
+    from .rules import gates
+    prog = ctx.prog
+    gates.gate_eval(ctx)
+    gates.join_sib(ctx)
+    inv = inventory(prog)
+    ctx.rule("PANIC(select)", PANIC_TEXT)
+    entries = [prog.fn("msi::internal::query::Select::exec"), prog.fn("msi::internal::package::Package::<F>::select_rows")]
+    n = inv.run(ctx, "PANIC(select)", entries, only=lambda f: f.file in ("src/internal/query.rs", "src/internal/table.rs", "src/internal/column.rs"),
+                label="Select::exec (joins, filters, projections)")
+    ctx.floor("PANIC(select)", "potential panic sites on the select path", n, 8)
+    ctx.assume(EXT_ASSUME)
+    return ctx.finish(explanation="dominance of name validation over every internal expression evaluation; sibling agreement of the two join arms; "
+                      "panic inventory of the select path. Which rows a join yields is not decided")
